@@ -29,7 +29,7 @@ func (tempErr) Temporary() bool { return true }
 func (tempErr) Timeout() bool   { return true }
 
 // faultKinds: the dynamic type of the injected error must not matter
-var faultKinds = []error{errInjected, tempErr{}, syscall.EAGAIN, syscall.EINTR, syscall.ENOSPC, os.ErrDeadlineExceeded, io.ErrShortWrite, io.ErrClosedPipe, context.DeadlineExceeded, io.ErrNoProgress, &os.PathError{Op: "write", Path: "x", Err: syscall.EIO}}
+var faultKinds = []error{smf.ErrFinished, smf.ErrMissing, errInjected, tempErr{}, syscall.EAGAIN, syscall.EINTR, syscall.ENOSPC, os.ErrDeadlineExceeded, io.ErrShortWrite, io.ErrClosedPipe, context.DeadlineExceeded, io.ErrNoProgress, &os.PathError{Op: "write", Path: "x", Err: syscall.EIO}}
 
 // faultWriter accepts bytes up to a byte offset and fails from there on.
 // short=true: the failing call reports the bytes that still fitted (n < len(p), err);
@@ -40,6 +40,7 @@ type faultWriter struct {
 	short    bool
 	full     bool // the failing call reports the complete count together with the error
 	oneShot  bool // transient failure: only one call fails, the destination works again afterwards
+	noErr    bool // the failing call takes fewer bytes than offered and reports no error at all (against the io.Writer contract, but seen in the wild)
 	accepted int
 	failed   int
 }
@@ -65,6 +66,9 @@ func (w *faultWriter) Write(p []byte) (int, error) {
 			n = 0
 		}
 		w.accepted += n
+		if w.noErr {
+			return n, nil
+		}
 		return n, w.fault()
 	}
 	return 0, w.fault()
@@ -157,7 +161,7 @@ func init() {
 			"faults placed after the last byte the reader consumes are not counted (the library never sees them)",
 			"WriteFile faults are injected by the kernel through RLIMIT_FSIZE with SIGXFSZ ignored (write returns EFBIG after a short write up to the limit)",
 		},
-		Require: []string{"write_faults_full_count", "write_faults_transient", "write_faults_transient_short", "write_fault_files_above_64KiB", "write_faults_injected", "write_faults_short", "write_faults_after_header", "read_faults_returned", "read_faults_with_data", "writefile_faults", "unfaulted_writes", "read_faults_big_payload"},
+		Require: []string{"write_faults_full_count", "write_faults_transient", "write_faults_transient_short", "write_faults_short_count_without_error", "write_fault_files_above_64KiB", "write_faults_injected", "write_faults_short", "write_faults_after_header", "read_faults_returned", "read_faults_with_data", "writefile_faults", "unfaulted_writes", "read_faults_big_payload"},
 		Run:     runC10,
 	})
 }
@@ -185,12 +189,18 @@ func runC10(c *mon.Ctx) {
 		in := map[string]any{"history": a.desc, "size": len(b)}
 		// ---- destination faults
 		for _, k := range offsets {
-			for mode := 0; mode < 5; mode++ {
-				short := mode == 1 || mode == 4
+			for mode := 0; mode < 6; mode++ {
+				short := mode == 1 || mode == 4 || mode == 5
 				if mode >= 3 {
 					c.Count("write_faults_transient", 1)
 				}
 				w := &faultWriter{limit: k, short: short, full: mode == 2, oneShot: mode >= 3, err: writeFaultKinds[(k+int(i))%len(writeFaultKinds)]}
+				if mode == 5 {
+					// one call takes fewer bytes than offered WITHOUT an error; later calls work: bytes are missing in the
+					// destination, so WriteTo must not return nil ("nil only if every byte was accepted")
+					w.noErr = true
+					c.Count("write_faults_short_count_without_error", 1)
+				}
 				if mode == 4 {
 					// the destination takes part of the data, says so, and works again afterwards
 					c.Count("write_faults_transient_short", 1)
